@@ -2,6 +2,7 @@ SPECIFICATION Spec
 CONSTANTS
   Pool = {"ct_good", "ct_bad", "ct_many", "ct_expr", "use_mono", "loops", "long_names"}
   EntryOps = {}
+  FirstOps = {}
   MaxLen = 2
   EmitHist = TRUE
 INVARIANT NoStaleRead
